@@ -302,7 +302,8 @@ class StmtEnv(Env):
         try:
             if case["kind"] == "batch":
                 bt = {"": None, "UNLOGGED": self.query.BatchType.Unlogged, "COUNTER": self.query.BatchType.Counter}[case["btype"]]
-                with self.query.BatchQuery(batch_type=bt) as b:
+                # docs/cqlengine/connections.rst: "With a BatchQuery, you can select the connection with the context manager"
+                with self.query.BatchQuery(batch_type=bt, connection=self.CONN) as b:
                     for m in case["members"]:
                         self.run_member(m, b)
             else:
@@ -407,7 +408,7 @@ class StmtEnv(Env):
                 if want[name] != have[name]:
                     problems.append(("%s part of the %s: requested %s, rendered and bound %s   [%s  <- %s]" % (
                         label, exp["kind"].upper(), want[name], have[name], " ".join(text.split()), _show_params(params)),
-                        "%s:%s" % (exp["kind"], name)))
+                        "%s:%s:%s" % (exp["kind"], name, _difference(want[name], have[name]))))
         return problems
 
     def compare_case(self, case, out, obs):
@@ -435,7 +436,27 @@ class StmtEnv(Env):
                 best = problems
             if len(sent) > 3:
                 break
-        return [(w, "%s:%s" % (head, s)) for w, s in best]
+        return best
+
+
+def _difference(want, have):
+    """A stable word for how two fragment lists differ (part of the signature)."""
+    w = [repr(f) for f in want]
+    h = [repr(f) for f in have]
+    missing = [f for f in want if repr(f) not in h]
+    extra = [f for f in have if repr(f) not in w]
+
+    def cols(fs):
+        return "+".join(sorted(set(t[2:] for f in fs for t in f[:1] if isinstance(t, str) and t.startswith("i:")))) or "x"
+    if missing and not extra:
+        return "missing-" + cols(missing)
+    if extra and not missing:
+        return "extra-" + cols(extra)
+    if any(t[0] == "UNBOUND" for f in have for t in f if isinstance(t, list)):
+        return "unbound"
+    if [[t if isinstance(t, str) else "V" for t in f] for f in want] == [[t if isinstance(t, str) else "V" for t in f] for f in have]:
+        return "bound-values"
+    return "fragments-" + cols(missing)
 
 
 def _show_params(params):
